@@ -89,6 +89,11 @@ pub struct State {
     pub stall_ns: Vec<u64>,
     pub stalls: u32,
     pub max_stalls: u32,
+    /// site-directed preemption (MAYV_STALL_AT=file-suffix:line:col:k[:ns]): the k-th time a schedule point at
+    /// that source location is reached, the thread that reached it is descheduled for ns of virtual time
+    /// BEFORE it performs the access (k = 0: every time, up to max_stalls)
+    pub stall_at: Option<(String, u32, u32, u32, u64)>,
+    pub stall_at_hits: u32,
 }
 
 pub struct Ctl {
@@ -384,6 +389,26 @@ impl Hooks for Ctl {
             g.threads[me].same_loc = 0;
             g.threads[me].hist = [0; 12];
         }
+        // site-directed preemption
+        let mut directed: Option<u64> = None;
+        if let Some((f, l, c, k, ns)) = &g.stall_at {
+            if loc.line() == *l && loc.column() == *c && loc.file().ends_with(f.as_str()) {
+                directed = Some(*ns);
+                let _ = k;
+            }
+        }
+        if let Some(ns) = directed {
+            g.stall_at_hits += 1;
+            let k = g.stall_at.as_ref().map(|x| x.3).unwrap_or(1);
+            if (k == 0 && g.stalls < g.max_stalls) || g.stall_at_hits == k {
+                g.stalls += 1;
+                let d = g.now + ns;
+                g.threads[me].st = TS::Blocked { key: STALL_KEY + me, deadline: Some(d) };
+                g.threads[me].woken = false;
+                drop(self.switch(g, me));
+                return;
+            }
+        }
         // preemption: the OS takes the CPU away from this thread for some (virtual) time
         if g.stall_n > 0 && g.stalls < g.max_stalls && g.next_rand() % g.stall_n == 0 {
             g.stalls += 1;
@@ -626,6 +651,7 @@ pub struct Config {
     pub stall_n: u64,
     pub stall_ns: Vec<u64>,
     pub max_stalls: u32,
+    pub stall_at: Option<(String, u32, u32, u32, u64)>,
 }
 
 impl Config {
@@ -668,6 +694,20 @@ impl Config {
             stall_n: stall.0,
             stall_ns: stall.1,
             max_stalls: std::env::var("MAYV_MAX_STALLS").ok().and_then(|s| s.parse().ok()).unwrap_or(3),
+            // MAYV_STALL_AT=file-suffix:line:col:k[:ns]
+            stall_at: std::env::var("MAYV_STALL_AT").ok().and_then(|s| {
+                let p: Vec<&str> = s.split(':').collect();
+                if p.len() < 4 {
+                    return None;
+                }
+                Some((
+                    p[0].to_string(),
+                    p[1].parse().ok()?,
+                    p[2].parse().ok()?,
+                    p[3].parse().ok()?,
+                    p.get(4).and_then(|x| x.parse().ok()).unwrap_or(30_000_000),
+                ))
+            }),
         }
     }
 }
@@ -794,6 +834,8 @@ pub fn run(cfg: Config, body: impl FnOnce(&Ctx)) -> ! {
         stall_ns: cfg.stall_ns.clone(),
         stalls: 0,
         max_stalls: cfg.max_stalls,
+        stall_at: cfg.stall_at.clone(),
+        stall_at_hits: 0,
     };
     for _ in 0..8 {
         st.next_rand();
